@@ -805,8 +805,9 @@ def run(ck: Check) -> None:
     c18_kv.campaign_kv_model(ck, 600 if quick else 6000)
     rn = Runner()
     try:
+        kv_finish = c18_kv.campaign_kv_three_ways(ck, rn, background=True)   # collected while the next campaign runs
         cache = campaign_three_ways(ck, rn)
-        c18_kv.campaign_kv_three_ways(ck, rn)
+        kv_finish()
         c18_repeat.campaign_repeated(ck, rn, cache)
         c18_kv.campaign_kv_repeated(ck, rn, ck.campaigns[-1])
         campaign_alias_spellings(ck, rn)
